@@ -1,7 +1,7 @@
 (* C01 -- Opening a masked card returns the type it was created with.
    Property theorems only: each is closed by `exact <lemma>` and followed by Print Assumptions. *)
-From Coq Require Import ZArith Znumtheory List Lia Permutation.
-From LT Require Import gen_Consts Zbase PowmModel PowmLemmas VtmfModel VtmfLemmas TmcgModel TmcgLemmas.
+From Coq Require Import ZArith Znumtheory List Lia Permutation Bool.
+From LT Require Import gen_Consts Zbase PowmModel PowmLemmas VtmfModel VtmfLemmas VtmfCount TmcgModel TmcgLemmas.
 Import ListNotations.
 Local Open Scope Z_scope.
 
@@ -46,6 +46,29 @@ Theorem C01_vtmf_missing_share_always_sentinel_refuted :
     open_run G w x_own others contributing T chain = inl t /\ t <> T /\ t <> 2 ^ Z.of_nat w.
 Proof. exact open_missing_valid_type_witness. Qed.
 Print Assumptions C01_vtmf_missing_share_always_sentinel_refuted.
+
+(* The counting form of "up to negligible probability".  By C01_vtmf_missing_share_exact an opening without the players
+   whose keys sum to xJ returns outcome_for G w T xJ R = expected_type G w (T + R * xJ), R the accumulated masking exponent.
+   For xJ not divisible by q, R |-> (T + R*xJ) mod q permutes Z_q; so over the q residues R = 0 .. q-1: *)
+Theorem C01_missing_share_count_T : forall G w T xJ, prime (gq G) -> 2 ^ Z.of_nat w <= gq G ->
+  0 <= T < 2 ^ Z.of_nat w -> xJ mod gq G <> 0 ->
+  length (filter (fun R => outcome_for G w T xJ R =? T) (zseq (Z.to_nat (gq G)))) = 1%nat.
+Proof. exact count_correct. Qed.
+Print Assumptions C01_missing_share_count_T.
+
+Theorem C01_missing_share_count_wrong_valid : forall G w T xJ, prime (gq G) -> 2 ^ Z.of_nat w <= gq G ->
+  0 <= T < 2 ^ Z.of_nat w -> xJ mod gq G <> 0 ->
+  Z.of_nat (length (filter (fun R => (outcome_for G w T xJ R <? 2 ^ Z.of_nat w) && negb (outcome_for G w T xJ R =? T))
+                           (zseq (Z.to_nat (gq G))))) = 2 ^ Z.of_nat w - 1.
+Proof. exact count_wrong_valid. Qed.
+Print Assumptions C01_missing_share_count_wrong_valid.
+
+Theorem C01_missing_share_count_sentinel : forall G w T xJ, prime (gq G) -> 2 ^ Z.of_nat w <= gq G ->
+  xJ mod gq G <> 0 ->
+  Z.of_nat (length (filter (fun R => outcome_for G w T xJ R =? 2 ^ Z.of_nat w) (zseq (Z.to_nat (gq G)))))
+  = gq G - 2 ^ Z.of_nat w.
+Proof. exact count_sentinel. Qed.
+Print Assumptions C01_missing_share_count_sentinel.
 
 (* Verify_Update verifies first and multiplies afterwards: a rejected share leaves the decryption state d unchanged ... *)
 Theorem C01_rejected_share_unchanged : forall G d dj, dec_update G d (dj, false) = (false, d).
